@@ -41,7 +41,7 @@ Lemma agree_timed : forall c sc os, agree c = true -> c_body c = Timed sc os ->
 Proof.
   intros c sc os Ha Hb ob Hob. unfold agree in Ha. rewrite Hb in Ha.
   destruct os as [|o os']; [discriminate Ha|].
-  rewrite forallb_forall in Ha. specialize (Ha ob Hob). apply andb_prop in Ha as [Ha _]. exact Ha.
+  rewrite forallb_forall in Ha. specialize (Ha ob Hob). unfold timed_ok in Ha. apply andb_prop in Ha as [Ha _]. exact Ha.
 Qed.
 
 Lemma checked_never_twice : forall c sc os, agree c = true -> c_body c = Timed sc os ->
